@@ -139,9 +139,153 @@ def _lower_walrus(stmts: List[ast.stmt]) -> bool:
     return changed
 
 
+_FLIP = {ast.Lt: ast.Gt, ast.Gt: ast.Lt, ast.LtE: ast.GtE, ast.GtE: ast.LtE, ast.Eq: ast.Eq, ast.NotEq: ast.NotEq}
+
+
+class _ExprCanon(ast.NodeTransformer):
+    """Spellings of one expression that differ only in form:
+    * `isinstance(x, A) or isinstance(x, B)` is `isinstance(x, (A, B))`, `not isinstance(x, A) and not isinstance(x, B)` is
+      `not isinstance(x, (A, B))` (x a name / attribute / subscript of names: evaluating it once or twice is the same);
+    * `c < x` with a literal on the left is `x > c` (likewise `<=`, `==`, `!=`);
+    * `range(0, n)` is `range(n)`."""
+
+    def __init__(self):
+        self.changed = False
+
+    def visit_Lambda(self, n):
+        return n
+
+    @staticmethod
+    def _pure(e) -> bool:
+        return all(isinstance(x, (ast.Name, ast.Attribute, ast.Subscript, ast.Constant, ast.Load, ast.Tuple)) for x in ast.walk(e))
+
+    @staticmethod
+    def _isinst(e):
+        """(subject, [types], negated) for `isinstance(x, T)` / `not isinstance(x, T)`"""
+        neg = False
+        if isinstance(e, ast.UnaryOp) and isinstance(e.op, ast.Not):
+            e, neg = e.operand, True
+        if isinstance(e, ast.Call) and isinstance(e.func, ast.Name) and e.func.id == "isinstance" and len(e.args) == 2 and not e.keywords:
+            types = list(e.args[1].elts) if isinstance(e.args[1], ast.Tuple) else [e.args[1]]
+            if not any(isinstance(t, ast.Starred) for t in types):
+                return e.args[0], types, neg
+        return None
+
+    def visit_BoolOp(self, n):
+        self.generic_visit(n)
+        want_neg = isinstance(n.op, ast.And)  # `or` merges positive tests, `and` merges negated ones
+        out = []
+        for v in n.values:
+            cur = self._isinst(v)
+            prev = self._isinst(out[-1]) if out else None
+            if cur is not None and prev is not None and cur[2] == want_neg and prev[2] == want_neg and self._pure(cur[0]) and ast.dump(cur[0]) == ast.dump(prev[0]):
+                call = ast.Call(func=ast.Name(id="isinstance", ctx=ast.Load()), args=[prev[0], ast.Tuple(elts=prev[1] + cur[1], ctx=ast.Load())], keywords=[])
+                merged = ast.UnaryOp(op=ast.Not(), operand=call) if want_neg else call
+                out[-1] = ast.fix_missing_locations(ast.copy_location(merged, v))
+                self.changed = True
+            else:
+                out.append(v)
+        if len(out) == 1:
+            return out[0]
+        n.values = out
+        return n
+
+    def visit_Compare(self, n):
+        self.generic_visit(n)
+        if len(n.ops) == 1 and type(n.ops[0]) in _FLIP and isinstance(n.left, ast.Constant) and not isinstance(n.comparators[0], ast.Constant) and not isinstance(n.left.value, (str, bytes)):
+            self.changed = True
+            return ast.copy_location(ast.Compare(left=n.comparators[0], ops=[_FLIP[type(n.ops[0])]()], comparators=[n.left]), n)
+        if len(n.ops) == 1 and type(n.ops[0]) in (ast.Lt, ast.Gt, ast.LtE, ast.GtE) and isinstance(n.left, ast.Name) and isinstance(n.comparators[0], ast.Call) \
+                and isinstance(n.comparators[0].func, ast.Name) and n.comparators[0].func.id == "len":
+            # `C > len(xs)` is `len(xs) < C` (a bare name on the left has no effect to be ordered with)
+            self.changed = True
+            return ast.copy_location(ast.Compare(left=n.comparators[0], ops=[_FLIP[type(n.ops[0])]()], comparators=[n.left]), n)
+        return n
+
+    def visit_Call(self, n):
+        self.generic_visit(n)
+        if isinstance(n.func, ast.Name) and n.func.id == "range" and len(n.args) == 2 and not n.keywords and isinstance(n.args[0], ast.Constant) and n.args[0].value == 0 \
+                and not isinstance(n.args[0].value, bool):
+            self.changed = True
+            n.args = [n.args[1]]
+        return n
+
+
+def _lower_selfassign(fn: ast.AST) -> bool:
+    """`x = x + e` (or `x = e + x`, `x = x | e`, ...) on a numeric accumulator is `x += e`: x is a local whose other bindings are
+    number literals, augmented assignments or assignments of this form (for numbers `+`, `*`, `|`, `&` commute and rebinding
+    equals the in-place operator)."""
+    stores = {}
+    parents = {}
+    for p_ in ast.walk(fn):
+        for ch in ast.iter_child_nodes(p_):
+            parents[id(ch)] = p_
+    params = {a.arg for a in fn.args.posonlyargs + fn.args.args + fn.args.kwonlyargs} | ({fn.args.vararg.arg} if fn.args.vararg else set()) | ({fn.args.kwarg.arg} if fn.args.kwarg else set())
+    for n in ast.walk(fn):
+        if isinstance(n, ast.Name) and isinstance(n.ctx, ast.Store):
+            stores.setdefault(n.id, []).append(parents.get(id(n)))
+
+    def selfref(st, name):
+        if isinstance(st, ast.Assign) and len(st.targets) == 1 and isinstance(st.targets[0], ast.Name) and st.targets[0].id == name and isinstance(st.value, ast.BinOp):
+            v = st.value
+            if isinstance(v.left, ast.Name) and v.left.id == name and not any(isinstance(x, ast.Name) and x.id == name for x in ast.walk(v.right)):
+                return v.op, v.right
+            if isinstance(v.op, (ast.Add, ast.Mult, ast.BitOr, ast.BitAnd)) and isinstance(v.right, ast.Name) and v.right.id == name \
+                    and not any(isinstance(x, ast.Name) and x.id == name for x in ast.walk(v.left)):
+                return v.op, v.left
+        return None
+
+    numeric = set()
+    for name, sts in stores.items():
+        if name in params:
+            continue
+        ok = any(isinstance(st, ast.Assign) and isinstance(st.value, ast.Constant) and isinstance(st.value.value, (int, float)) and not isinstance(st.value.value, bool) for st in sts)
+        for st in sts:
+            if isinstance(st, ast.Assign) and isinstance(st.value, ast.Constant) and isinstance(st.value.value, (int, float)) and not isinstance(st.value.value, bool):
+                continue
+            if isinstance(st, ast.AugAssign) and isinstance(st.target, ast.Name):
+                continue
+            if selfref(st, name) is not None:
+                continue
+            ok = False
+        if ok:
+            numeric.add(name)
+    changed = False
+
+    def walk(stmts):
+        nonlocal changed
+        for i, st in enumerate(stmts):
+            if isinstance(st, ast.Assign) and len(st.targets) == 1 and isinstance(st.targets[0], ast.Name) and st.targets[0].id in numeric:
+                sr = selfref(st, st.targets[0].id)
+                if sr is not None:
+                    new = ast.AugAssign(target=ast.Name(id=st.targets[0].id, ctx=ast.Store()), op=sr[0], value=sr[1])
+                    stmts[i] = ast.fix_missing_locations(ast.copy_location(new, st))
+                    changed = True
+                    continue
+            for fld in ("body", "orelse", "finalbody"):
+                sub = getattr(st, fld, None)
+                if isinstance(sub, list) and sub and isinstance(sub[0], ast.stmt) and not isinstance(st, (ast.FunctionDef, ast.AsyncFunctionDef, ast.ClassDef)):
+                    walk(sub)
+            for h in getattr(st, "handlers", []) or []:
+                walk(h.body)
+
+    walk(fn.body)
+    return changed
+
+
 def lower_program(prog: Program) -> None:
     counter = [0]
     log = []
+    for f in list(prog.all_functions(include_inlined=True)):
+        if _lower_selfassign(f.node):
+            log.append(f"{f.qualname}: `x = x <op> e` on a numeric accumulator written as an augmented assignment")
+    for f in list(prog.all_functions(include_inlined=True)):
+        c = _ExprCanon()
+        for i, st in enumerate(f.node.body):
+            f.node.body[i] = c.visit(st)
+        if c.changed:
+            ast.fix_missing_locations(f.node)
+            log.append(f"{f.qualname}: isinstance chains / mirrored comparisons / range(0, n) written in their canonical form")
     for f in list(prog.all_functions(include_inlined=True)):
         if any(isinstance(n, ast.NamedExpr) for n in ast.walk(f.node)):
             if _lower_walrus(f.node.body):
